@@ -211,8 +211,9 @@ def stage2_map(rng, case):
             continue
         if fate != 'invalid':
             ent[base + 0x2000 + 8 * pg] = page(pg << 12, {'noaccess': 0, 'readonly': 1, 'af0': 3, 'rw': 3}[fate], af=0 if fate == 'af0' else 1)
+    big = (st.get('hsctlr', 0) >> 25) & 1                # stage-2 descriptors are read with the endianness HSCTLR.EE selects
     for a, d in sorted(ent.items()):
-        case['poke'].append([a, d.to_bytes(8, 'little').hex()])
+        case['poke'].append([a, d.to_bytes(8, 'big' if big else 'little').hex()])
     st['hcr'] = (st.get('hcr', 0) | 1) & ~(1 << 27)
     st['vtcr'] = (rng.getrandbits(6) << 8) | (1 << 6)
     st['vttbr'] = base
